@@ -938,7 +938,8 @@ where
     if let Some(rule_id) = before {
         let idx = set.get_index_of(rule_id).ok_or(InsertPushRuleError::UnknownRuleId)?;
 
-        if idx < to {
+        // Only `after` bounds `before`; the default position does not.
+        if after.is_some() && idx < to {
             return Err(InsertPushRuleError::BeforeHigherThanAfter);
         }
 
